@@ -320,6 +320,10 @@ def main():
     red("CallRef", R.CallRef(P, (Q, 1), {"k": 2}), (P, (Q, 1), (("k", 2),)))
     red("ItemRef", R.ItemRef(P, "k", m), (P, "k", m))
     red("AttrRef", R.AttrRef(P, "k", m), (P, "k", m))
+    # container refs: what Manager.ref() and Manager.refattr() create
+    box0 = {"a": 1}
+    red("Ref", R.Ref(box0, "c0", m), (box0, "c0", m))
+    red("ObjectAttrRef", R.ObjectAttrRef(box0, "c0", m), (box0, "c0", m))
 
     obs.update({"propagate": [p for p in propagate if not p[2]], "dunders": dunders, "classes": classes, "unary": unary, "builtin": builtin, "inplace": inplace,
                 "deps": deps, "reduce": reduce_rows})
